@@ -51,6 +51,11 @@ func init() {
 // asLimit is the address-space ceiling of the child process.
 const asLimit = 3 << 30
 
+func setASLimit() {
+	lim := syscall.Rlimit{Cur: asLimit, Max: asLimit}
+	_ = syscall.Setrlimit(syscall.RLIMIT_AS, &lim)
+}
+
 // infra reports an infrastructure problem (never a verdict) and exits.
 func infra(format string, args ...interface{}) {
 	fmt.Fprintf(os.Stderr, "C02-INFRA: "+format+"\n", args...)
@@ -265,8 +270,7 @@ func child(ctx *fw.Ctx) {
 	// A hard ceiling on the address space makes "allocation sized from an
 	// unchecked length" a deterministic fatal error instead of a gamble with
 	// the machine's overcommit policy.
-	lim := syscall.Rlimit{Cur: asLimit, Max: asLimit}
-	_ = syscall.Setrlimit(syscall.RLIMIT_AS, &lim)
+	setASLimit()
 
 	from, _ := strconv.Atoi(os.Getenv("C02_FROM"))
 	to, _ := strconv.Atoi(os.Getenv("C02_TO"))
@@ -285,6 +289,13 @@ func child(ctx *fw.Ctx) {
 		i := c.Index
 		send(&event{Start: &i})
 		o := runCase(c)
+		o.note("cases_" + c.Side + "_" + c.Family)
+		if c.Family != "type" {
+			o.note("type_" + c.Side + "_" + c.TypeName)
+		}
+		if c.Family == "trunc" {
+			o.note("cut_points")
+		}
 		e := &event{Done: &i, States: 1, Steps: o.steps, Evals: o.evals, Key: o.key, Notes: o.notes}
 		for _, v := range o.final() {
 			e.Viol = append(e.Viol, violationOf(c, v))
@@ -499,6 +510,7 @@ func replay(ctx *fw.Ctx, rep *fw.Report) {
 	}
 	if os.Getenv("C02_CHILD") != "" {
 		// in the child: run the case and report through the exit code
+		setASLimit()
 		memfs.RecordSites = false
 		watchdog()
 		o := runCase(c)
@@ -555,7 +567,7 @@ func run(ctx *fw.Ctx, rep *fw.Report) {
 	if os.Getenv("C02_CHILD") != "" {
 		child(ctx) // does not return
 	}
-	rep.Rule = fmt.Sprintf("receivers: real Server (T-frames from a raw peer, memfs, 15-fid fixture, sentinel Tgetattr with unique tag last) and real Client (R-frames from a scripted peer while 1 or 2 calls are pending); x limit {negotiated msize 4096, unnegotiated: 4 MiB server / 64 KiB client default}; for the canonical frame of every one of the %d registered types (refcodec): the frame itself; every truncation offset followed by EOF; size field in {0,1,6,7,8,len-1,len+1,msize-1,msize,msize+1,4MiB,4MiB+1,2^31,2^32-1}; every byte position x {0x00,0xff,b^1,b^0x80}; every 16-bit count/length position (string lengths, nwname, wname lengths, nwqid, dirent name lengths) x {0,1,n-1,n+1,0x7fff,0x8000,0xffff}; every 32-bit data count x {0,n-1,n+1,2^32-1} and request count x {.., msize-11, msize, msize+1, 4MiB, 4MiB+1}; all 256 type bytes x {empty body, mid-size body}; consistent payload lengths around the limits (Twrite frame size 23,24,msize-1,msize,msize+1; Rread data length, Rwrite count, Rxattrwalk size grids); all sequences of length 1..3 over {good, unknown-type, unknown-type-empty, body-short, strlen-beyond-body, list-count-beyond-body, data-count-inconsistent, trailing-bytes, size<7, size>msize}; every stream is followed by EOF; distinct = (side, limit, family, type, classifier verdicts, observed replies / call outcomes)", len(refcodec.Defs))
+	rep.Rule = fmt.Sprintf("receivers: real Server (T-frames from a raw peer, memfs, 15-fid fixture, sentinel Tgetattr with unique tag last) and real Client (R-frames from a scripted peer while 1 or 2 calls are pending); x limit {negotiated msize 4096, unnegotiated: 4 MiB server / 64 KiB client default} (quick); for the canonical frame of every one of the %d registered types (refcodec): the frame itself; every truncation offset followed by EOF; size field in {0,1,6,7,8,len-1,len+1,msize-1,msize,msize+1,4MiB,4MiB+1,2^31,2^32-1}; every byte position x {0x00,0xff,b^1,b^0x80}; every 16-bit count/length position (string lengths, nwname, wname lengths, nwqid, dirent name lengths) x {0,1,n-1,n+1,0x7fff,0x8000,0xffff}; every 32-bit data count x {0,n-1,n+1,2^32-1} and request count x {.., msize-11, msize, msize+1, 4MiB, 4MiB+1}; all 256 type bytes x {empty body, mid-size body}; consistent payload lengths around the limits (Twrite frame size 23,24,msize-1,msize,msize+1; Rread data length, Rwrite count, Rxattrwalk size grids); all sequences of length 1..3 (thorough: 1..4) over {good, unknown-type, unknown-type-empty, body-short, strlen-beyond-body, list-count-beyond-body, data-count-inconsistent, trailing-bytes, size<7, size>msize}; thorough tier adds: negotiated msize 512 and 65536 (server) / 512 and 16384 (client), and every PAIR of byte positions among the first 16 bytes x the four values each; every stream is followed by EOF; distinct = (side, limit, family, type, classifier verdicts, observed replies / call outcomes)", len(refcodec.Defs))
 	rep.Assumptions = append(rep.Assumptions,
 		"classifier: delivered = known type, body decodes exactly; rejected = unknown type / body too short / counts beyond or inconsistent with the body; either = bytes after the last field, Rreaddir payload ending in an incomplete entry; conn-end = size<7 or size>limit; truncated = EOF inside the frame",
 		"server replies are matched to frames by tag (requests are served concurrently); a rejected frame may be answered with any tag (p9 uses NOTAG for undecodable bodies)",
